@@ -48,6 +48,7 @@ def main():
     ap.add_argument("--replay")
     ap.add_argument("--no-build", action="store_true")
     ap.add_argument("--no-shrink", action="store_true")
+    ap.add_argument("--no-evidence", action="store_true", help="do not rewrite evidence/<id>.json (runs against a deliberately modified tree)")
     ap.add_argument("--max-report", type=int, default=5)
     ap.add_argument("--summary", action="store_true")
     ap.add_argument("--features", action="store_true", help="print per-feature failure rates (classification of the clean fragment)")
@@ -239,11 +240,12 @@ def main():
                                "entropy (interposed at libc), sysinfo pressure monitors (neutralised by config)"},
         "exhaustive": False,
     }
-    engine.write_evidence(prop, tier, seed, prof.level, coverage, wall, len(found),
-                          getattr(prof, "assumptions", [
-                              "process crashes only (no power loss): bytes handed to write(2) survive",
-                              "single runtime thread + one blocking thread; interleavings beyond FIFO order only via gates",
-                              "interposition covers every mutating libc call std uses (startup self-test)"]))
+    if not a.no_evidence:
+        engine.write_evidence(prop, tier, seed, prof.level, coverage, wall, len(found),
+                              getattr(prof, "assumptions", [
+                                  "process crashes only (no power loss): bytes handed to write(2) survive",
+                                  "single runtime thread + one blocking thread; interleavings beyond FIFO order only via gates",
+                                  "interposition covers every mutating libc call std uses (startup self-test)"]))
     print(f"{prop} {tier}: {evaluations} runs ({nbase} base), {stats.get('lifetimes',0)} lifetimes, {len(nontrivial)} distinct non-trivial, "
           f"{wall:.1f}s wall, {runs_per_hour}/h, violations={len(found)} known={sum(len(v) for v in known_hits.values())} harness={len(harness)}")
     sys.exit(rc)
